@@ -1,3 +1,4 @@
 import Check.Grey
 import Check.Decode
 import Check.Encode
+import Check.Prim
